@@ -240,10 +240,17 @@ def flushPending (s : Index) : Bool := !(decide (s.version ≤ s.savedVersion) &
 def flushWrites (s : Index) : List Write :=
   if flushPending s then Gen.HnswOrder.flushOrder.flatMap (phaseWrites s) else []
 
-/-- `purge_removed_nodes` as the wrapper's callback performs it: delete the blob of every tombstone
-whose id has no live node (re-inserted ids are skipped) -/
+/-- does `purge_removed_nodes` hand tombstone `i` to the deletion callback?  The rule is the GENERATED
+one: with `purgeConsultsNodeMap` the node map is consulted and a live id is skipped; without it (an
+edit that drops the check) every tombstone is deleted. -/
+def purgeDeletes (s : Index) (i : Nat) : Bool :=
+  !Gen.HnswOrder.purgeConsultsNodeMap || (getNode s.nodes i).isNone
+
+/-- `purge_removed_nodes` as the wrapper's callback performs it: the deleted set is a function of the
+tombstone set AND the node map — a tombstone whose id has a live node (re-inserted, or live in a newer
+ids object than the metadata that carried the tombstone after a torn flush) is skipped -/
 def purgeWrites (s : Index) : List Write :=
-  (s.removed.filter (fun i => (getNode s.nodes i).isNone)).map Write.del
+  (s.removed.filter (purgeDeletes s)).map Write.del
 
 /-- everything `anda_db::index::Hnsw::flush` makes durable, in order -/
 def wrapperWrites (s : Index) : List Write := flushWrites s ++ purgeWrites s
